@@ -17,6 +17,7 @@ func init() {
 			ruleZ3(c)
 			ruleZ4(c)
 			ruleZ5(c)
+			ruleZ6(c)
 			ruleH3(c)
 		},
 		explanation: "Time bounds and the behaviour of ttRPC on a cut connection are not decided.  Decided is the structure that termination and restartability rest on: every channel receive executed while the stub lock is held is a select with a second case that the end of the session makes ready (the close notification's channel) — the one bare receive, close() waiting for the server goroutine, is preceded on every path by closing the server; the close notification registered with the ttRPC client carries a value created in that very Start activation and the teardown it triggers is control-dependent on comparing it with the stub's current session; every session resource set up by Start/connect, including the conditionally reused connection, is reset by a deferred cleanup on every failing exit; close() is only ever called with the stub lock held, resets started and conn, and the per-activation done channel is closed once, after the server result was sent to a channel of capacity >= 1; Wait only waits when started and Start refuses a started stub; Configure reports its result exactly once.",
@@ -563,4 +564,34 @@ func ruleZ5(c *Ctx) {
 		}
 	}
 	c.ok("Z5", "Start", st.Pos(), bad == "", "Start refuses a stub that is already started before touching session state", bad)
+}
+
+// ruleZ6: session state is only touched under the stub lock.
+func ruleZ6(c *Ctx) {
+	m := c.M
+	c.rule("Z6", "session state under the lock: every read or write of the stub's session fields (rpcm, rpcl, rpcs, rpcc, conn, started, syncReq) outside stub construction happens with stub.Mutex held — in particular the comparison that decides whether a close notification is stale is made under the same lock as the teardown it guards", 15)
+	la := allLocks(c)
+	stT := m.named(pkgStub, "stub")
+	ord := map[string]int{}
+	for _, f := range m.funcsInPkg(pkgStub) {
+		if f.Synthetic != "" {
+			continue
+		}
+		// construction: New and the option closures work on a stub that is not shared yet
+		if f.Name() == "New" || (f.Parent() != nil && strings.HasPrefix(f.Parent().Name(), "With")) {
+			continue
+		}
+		for _, fld := range []string{"rpcm", "rpcl", "rpcs", "rpcc", "conn", "started", "syncReq"} {
+			for _, fa := range m.fieldAddrs(f, stT, fld) {
+				base := funcKey(f) + "/" + fld
+				ord[base]++
+				key := base
+				if ord[base] > 1 {
+					key = fmt.Sprintf("%s#%d", base, ord[base])
+				}
+				c.ok("Z6", key, fa.Pos(), la.holds(fa, "stub.Mutex", 'W'), fmt.Sprintf("stub.%s is accessed in %s under the stub lock", fld, funcKey(f)),
+					"the session field is accessed with lockset "+la.describe(fa)+": a check made here can be invalidated by a concurrent Start/Stop before it is acted upon (check-then-act race), e.g. a late close notification judged current tears down the next session")
+			}
+		}
+	}
 }
